@@ -90,7 +90,9 @@ Ok(t, i) == <<"OK", t, i>>
 ParsePrefix(ts, i, intern) ==
   IF i > Len(ts) THEN PERR
   ELSE IF ts[i] = "(" THEN
-       (LET r == ParseE(ts, i + 1, -2, FALSE) IN
+       \* (inside the arms of a ternary no other ternary may be written - not in parentheses, argument lists or
+       \* index brackets either: "intern" is handed down)
+       (LET r == ParseE(ts, i + 1, -2, intern) IN
         IF Failed(r) THEN PERR
         ELSE IF r[3] > Len(ts) \/ ts[r[3]] # ")" THEN PERR ELSE Ok(r[2], r[3] + 1))
   ELSE IF IsPrefixTok(ts[i]) THEN
@@ -106,7 +108,7 @@ ParsePrefix(ts, i, intern) ==
 ParseArgs(ts, i, acc, intern) ==
   IF i > Len(ts) THEN PERR
   ELSE IF ts[i] = ")" /\ Len(acc) = 0 THEN Ok(acc, i + 1)
-  ELSE LET r == ParseE(ts, i, -2, FALSE) IN
+  ELSE LET r == ParseE(ts, i, -2, intern) IN
        IF Failed(r) THEN PERR
        ELSE IF r[3] > Len(ts) THEN PERR
        ELSE IF ts[r[3]] = ")" THEN Ok(Append(acc, r[2]), r[3] + 1)
@@ -117,7 +119,7 @@ ParseArgs(ts, i, acc, intern) ==
 ParseLoop(ts, i, lv, left, intern) ==
   IF i > Len(ts) THEN Ok(left, i)
   ELSE IF ts[i] = "[" /\ PostfixLevel > lv THEN
-       (LET r == ParseE(ts, i + 1, -2, FALSE) IN
+       (LET r == ParseE(ts, i + 1, -2, intern) IN
         IF Failed(r) THEN PERR
         ELSE IF r[3] > Len(ts) \/ ts[r[3]] # "]" THEN PERR
         ELSE ParseLoop(ts, r[3] + 1, lv, <<"idx", left, r[2]>>, intern))
